@@ -152,6 +152,7 @@ Inductive hazard : Type :=
 | HK17           (* two pending attributes with different qualified names, one expanded name *)
 | HDeclAttr      (* xsl:attribute whose final name is xmlns or xmlns:.. : creates a declaration *)
 | HElemEmptyNs   (* xsl:element name="p:l" namespace="" with p declared in the stylesheet *)
+| HLateLiteral   (* literal attribute added after attribute sets: its prefix was re-bound meanwhile *)
 | HUnsupported.  (* outside the modelled language *)
 
 Record st : Type := mkSt {
@@ -274,7 +275,10 @@ Inductive op : Type :=
 (* literal result element: name, in-scope stylesheet namespaces (innermost element first, each
    element's declarations in document order), URIs designated by exclude-result-prefixes in
    scope, literal attributes *)
-| OLre (name : qname) (inscope : list (pfx * uri)) (excl : list uri) (attrs : list (qname * N)).
+| OLre (name : qname) (inscope : list (pfx * uri)) (excl : list uri) (attrs : list (qname * N))
+(* the same element with xsl:use-attribute-sets, in two steps (see lre_open / lre_attrs_late) *)
+| OLreOpen (name : qname) (inscope : list (pfx * uri)) (excl : list uri) (attrs : list (qname * N))
+| OLreAttrs (inscope : list (pfx * uri)) (attrs : list (qname * N)).
 
 (* ---- requested expanded names (specification side; XSLT 1.0 sections 7.1.1-7.1.3) ---- *)
 
@@ -573,12 +577,45 @@ Definition lre_fixup (s : st) (name : qname) (inscope : list (pfx * uri)) : st :
 Definition lre_attrs (s : st) (inscope : list (pfx * uri)) (attrs : list (qname * N)) : st :=
   fold_left (fun s a => add_result_attr s (fst a) (snd a) (req_lre_attr (fst a) inscope)) attrs s.
 
-Definition exec_lre (s : st) (name : qname) (inscope : list (pfx * uri)) (excl : list uri)
+(* ElemLiteralResult::startElement up to and including the default-namespace check: start tag
+   pending, the element's namespace declarations written *)
+Definition lre_open (s : st) (name : qname) (inscope : list (pfx * uri)) (excl : list uri)
            (attrs : list (qname * N)) : st :=
   let req := req_lre_elem name inscope in
   let s1 := start_elem (add_hz_if (negb (lre_wf name inscope attrs)) HUnsupported s) name req in
   let s2 := fold_left output_ns (lre_decls name inscope excl attrs) s1 in
-  lre_attrs (lre_fixup s2 name inscope) inscope attrs.
+  lre_fixup s2 name inscope.
+
+(* a literal result element without xsl:use-attribute-sets: the literal attributes follow at once *)
+Definition exec_lre (s : st) (name : qname) (inscope : list (pfx * uri)) (excl : list uri)
+           (attrs : list (qname * N)) : st :=
+  lre_attrs (lre_open s name inscope excl attrs) inscope attrs.
+
+(* with xsl:use-attribute-sets the attribute sets are instantiated AFTER the declarations and
+   BEFORE the literal attributes (ElemUse::getFirstChildElemToExecute / getNextChildElemToExecute:
+   evaluateAVTs runs when the last attribute set is done).  A program then is
+   OLreOpen; OAttr ... (the xsl:attribute instructions of the sets); OLreAttrs.
+   By then a literal attribute's prefix may have been re-bound on the pending element by an
+   xsl:attribute of a set (it was neither used nor declared on the start tag yet): HLateLiteral. *)
+Definition late_attr (s : st) (inscope : list (pfx * uri)) (a : qname * N) : st :=
+  match pend s with
+  | None => add_hz s HUnsupported                              (* not a program *)
+  | Some _ =>
+      let name := fst a in
+      let req := req_lre_attr name inscope in
+      let mismatch :=
+        match fst name with
+        | None | Some AXml => false
+        | Some x => match ns_for_prefix (stk s) (Some x) with
+                    | Some w => negb (N.eqb w (fst req)) || N.eqb w 0
+                    | None => true
+                    end
+        end in
+      emit_attr (add_hz_if mismatch HLateLiteral s) name (snd a) req
+  end.
+
+Definition lre_attrs_late (s : st) (inscope : list (pfx * uri)) (attrs : list (qname * N)) : st :=
+  fold_left (fun s a => late_attr s inscope a) attrs s.
 
 (* ---------------------------------------------------------------------------------------- *)
 (* XSLTEngineImpl::copyNamespaceAttributes (xsl:copy / xsl:copy-of of a source element): the
@@ -610,6 +647,8 @@ Definition exec_op (s : st) (o : op) : st :=
   | OAttr name nsattr sns v => exec_attr s name nsattr sns v
   | OElem name nsattr sns sdef pdef => exec_elem s name nsattr sns sdef pdef
   | OLre name inscope excl attrs => exec_lre s name inscope excl attrs
+  | OLreOpen name inscope excl attrs => lre_open s name inscope excl attrs
+  | OLreAttrs inscope attrs => lre_attrs_late s inscope attrs
   end.
 
 Definition run_from (s : st) (ops : list op) : st := fold_left exec_op ops s.
